@@ -63,6 +63,9 @@ func genC02(seed uint64, tier string) *plan.Plan {
 			}
 			pl.Ops = append(pl.Ops, plan.Op{K: "data", A: int64(slot), B: int64(nrec), C: int64(r.Uint64() >> 1), D: maxVar, S: []string{"", "extra", "v2"}[r.IntN(3)]})
 			if r.IntN(8) == 0 {
+				pl.Ops = append(pl.Ops[:len(pl.Ops)-1], plan.Op{K: "emptyprep", A: int64(r.IntN(nT))}, pl.Ops[len(pl.Ops)-1])
+			}
+			if r.IntN(8) == 0 {
 				// the Set as it stands is sent once more (after another PrepareSet with the same arguments, or not)
 				pl.Ops = append(pl.Ops, plan.Op{K: "resend", S: []string{"", "prep"}[r.IntN(2)]})
 			}
